@@ -322,7 +322,7 @@ func (w *World) runPath(fn *ssa.Function, sol *Solver, prefix []Decision, opt Op
 }
 
 func (w *World) newMachine(tt *TermTab, p *Path) *Machine {
-	m := &Machine{preemptAt: -1, prog: w.Prog, world: w, globals: map[*ssa.Global]*value{}, tt: tt, path: p,
+	m := &Machine{fnSeen: map[*ssa.Function]bool{}, preemptAt: -1, prog: w.Prog, world: w, globals: map[*ssa.Global]*value{}, tt: tt, path: p,
 		models: map[any]any{}, fmtMemo: map[string]value{}, clock: 1_000_000_000, inited: map[*ssa.Package]bool{}, fpMemo: map[fpKey]*Term{}, fpOrigin: map[*Term]*Term{}, pools: map[*value][]value{}}
 	m.initSched()
 	return m
@@ -336,6 +336,7 @@ func (w *World) execute(m *Machine, fn *ssa.Function) (end string) {
 			defer func() { recover() }()
 			m.shutdown()
 		}()
+		w.noteFuncs(m.fnSeen)
 		if r == nil {
 			return
 		}
